@@ -7,8 +7,17 @@ extern crate alloc;
 pub mod src;
 pub mod refenc;
 pub mod leaves;
+pub mod family;
+pub mod family_gen;
 
 #[macro_use]
 mod reg;
 
 include!("registry.rs");
+include!("registry_family.rs");
+
+pub fn registry() -> Vec<(&'static str, fn(&mut crate::src::ReplaySrc))> {
+    let mut v = registry_leaves();
+    v.extend(registry_family());
+    v
+}
